@@ -321,6 +321,13 @@ def compile_case(idx, payload):
     try:
         w = PybindWrapper(module_name="m", top_module_namespaces=[''], use_boost_serialization=False, ignore_classes=[],
                           module_template=CTX)
+        if idx % 2 == 1:
+            # with documentation: every method binding gets a docstring literal; whatever the text, the unit must compile
+            nasty = ['say "hi"', 'back\\slash', 'ends in a backslash\\', 'tab\there', 'two\nlines', 'what??/', 'ctrl\x01b', 'caf\u00e9',
+                     "it's", '{braces} %s {0}', 'a\u00a0b', '\\"', 'R"(raw)"', '*/ /* //']
+            w.xml_source = "stubbed"
+            w.xml_parser.extract_docstring = lambda *a, **k: rng.choice(nasty)
+            res["stats"] = dict(stats, with_docstrings=1)
         out = w.wrap_file(iface, module_name="m")
     except Exception as e:  # noqa
         res["gen_error"] = "%s: %s" % (type(e).__name__, str(e)[:200])
